@@ -689,7 +689,7 @@ fn history_reproduce(opts: &Opts, prop: &str, hist: &[u64]) -> Result<Option<His
 
 fn default_runs(kind: SimKind, tier: &str) -> u64 {
     match (kind, tier) {
-        (SimKind::Terms, "quick") => 120_000,
+        (SimKind::Terms, "quick") => 80_000,
         (SimKind::Terms, _) => 4_000_000,
         (SimKind::Sessions, "quick") => 60_000,
         (SimKind::Sessions, _) => 5_000_000,
@@ -792,7 +792,7 @@ fn run_batch(opts: &Opts) -> Result<u8, String> {
     let mut unreproduced = 0u64;
     let mut unreproduced_note: Option<String> = None;
 
-    while start < total && found.is_none() && hist_found.is_none() && known_matched < 200 {
+    while start < total && found.is_none() && hist_found.is_none() && known_matched < 200 && unreproduced < 3 {
         let end = (start + block).min(total);
         let counter = AtomicU64::new(start);
         let parts: Vec<(Agg, Vec<(u64, u64)>, Option<String>)> = std::thread::scope(|sc| {
@@ -886,6 +886,9 @@ fn run_batch(opts: &Opts) -> Result<u8, String> {
                         if unreproduced_note.is_none() {
                             unreproduced_note = Some(format!("run {i}: {} {}: {}", viol.prop, viol.kind, viol.message));
                         }
+                        if unreproduced >= 3 {
+                            break;
+                        }
                         continue;
                     }
                 }
@@ -939,7 +942,7 @@ fn run_batch(opts: &Opts) -> Result<u8, String> {
 
     // ---- restart oracle (C08): process histories replayed in fresh processes ----
     let mut seg_found: Option<SegFound> = None;
-    if kind == SimKind::Sessions && found.is_none() && hist_found.is_none() && !opts.dump_digests {
+    if kind == SimKind::Sessions && found.is_none() && hist_found.is_none() && unreproduced == 0 && !opts.dump_digests {
         let (n_seg, seg_len) = match (opts.segments, opts.tier.as_str()) {
             (Some(n), _) => (n, 80),
             (None, "quick") => (opts.workers as u64 * 2, 80),
@@ -1061,10 +1064,16 @@ fn run_batch(opts: &Opts) -> Result<u8, String> {
         agg.aborted
     );
     if exit == 0 && unreproduced > 0 {
-        return Err(format!(
-            "{unreproduced} run(s) showed a violation that neither the run alone nor its thread history reproduces in a fresh process (state shared across threads?); first: {}",
+        // seen while 16 worker threads were using the library at the same time, but neither the run
+        // alone nor its thread history reproduces it in a fresh process: state shared ACROSS
+        // threads, which the native harness does not schedule. Not a verdict by itself: exit 3
+        // tells the driver script to hand over to the Miri thread component, whose interleavings
+        // are a function of the Miri seed and therefore replay.
+        println!(
+            "UNREPRODUCED property={prop} observations={unreproduced} (a violation was observed under concurrent use of the library by the worker threads but does not replay single-threaded) first: {}",
             unreproduced_note.unwrap_or_default()
-        ));
+        );
+        return Ok(3);
     }
     if agg.runs > 100 && agg.aborted * 20 > agg.runs {
         return Err(format!("{} of {} runs aborted while building their workload", agg.aborted, agg.runs));
